@@ -202,6 +202,9 @@ def flat_join(t) -> Optional[List[Any]]:
         out = []
         for i, a in enumerate(t[2]):
             sub = flat_join(a)
+            if sub is None and a[0] == "call" and a[1] == glob("os.path.dirname") and len(a[2]) == 1 \
+                    and a[2][0][0] == "call" and a[2][0][1] == glob("os.path.basename"):
+                a = const("")            # a base name has no directory part
             out.extend(sub if sub is not None else [a])
         # os.path.join skips an empty component in the middle (join(a, '', b) == join(a, b)); a trailing '' adds a separator
         return [c for i, c in enumerate(out) if not (c == const("") and 0 < i < len(out) - 1)]
